@@ -979,11 +979,12 @@ class EClass(EClassifier):
         # existing instances must not keep the value holder of a feature their
         # class lost: without the descriptor it would be handed out raw
         for instance in self.allInstances():
-            names = {f.name for f
-                     in instance.eClass._eAllStructuralFeatures_gen()}
+            # (by feature, not by name: a feature that shadowed an inherited
+            # one of the same name leaves with its holder)
+            features = set(instance.eClass._eAllStructuralFeatures_gen())
             for key, value in list(instance.__dict__.items()):
-                if key not in names and isinstance(value,
-                                                   (EValue, ECollection)):
+                if isinstance(value, (EValue, ECollection)) \
+                        and value.feature not in features:
                     del instance.__dict__[key]
                     # ... nor the mark that it was set: the feature may come
                     # back, and then it has never been set on this instance
